@@ -191,6 +191,11 @@ func (s *svc) answer(ctx context.Context, kind, name string, old api.SecretVersi
 	case "fail":
 		rec("fail")
 		s.mu.Unlock()
+		if nth%3 == 0 {
+			// the client's own per-request timeout: an error that wraps a context error although
+			// the caller's context is alive - a failed request like any other
+			return nil, fmt.Errorf("request timed out: %w", context.DeadlineExceeded)
+		}
 		return nil, errors.New("injected service failure")
 	case "notfound":
 		rec("notfound")
